@@ -95,7 +95,7 @@ package pcache
 // by the caller's own context returns without publishing, and then it returns that context's error)
 //@   ensures-local result == nil && count("call:ProviderSource.FetchAll") >= 1 ==> count("atomic.store:read") == 1
 // ASSUMED about context.Context: once Err() has returned non-nil it keeps doing so (second call on the cancel path)
-//@   at call Err#2: after assume result != nil
+//@   at call Err#3: after assume result != nil
 //@   at call Store#1: assert isfresh(arg1)
 //@   at call Store#2: assert isfresh(arg1)
 //@   at call needMerge#1: assume arg0 < 2147483648 && arg1 < 2147483648
